@@ -3,8 +3,8 @@ import scaledgen as g
 TAGS = ['NAT', 'NEA', 'TIE', 'NEG']
 
 
-def T(rep, e):
-    return 'SI<%s, %d>' % (rep, e)
+def T(rep, e, radix=2):
+    return ('SI<%s, %d>' % (rep, e)) if radix == 2 else ('SI<%s, %d, %d>' % (rep, e, radix))
 
 
 def line(src, dst, tag, how):
@@ -62,6 +62,21 @@ def programs(t):
             if srep[0] == drep[0]:
                 lines.append(line(T(srep, -2), T(drep, -4), tag, 'VIA_CTOR'))
                 lines.append(line(T(srep, -3), T(drep, -3), tag, 'VIA_CTOR'))
+    # non-binary radix (decimal fixed point and radix 3 / 16): scaled -> coarser scaled of the same radix, float -> scaled
+    for tag in TAGS:
+        for (rep, radix, se, de) in ([('i8', 10, -2, -1), ('i32', 10, -3, -1), ('i16', 16, -2, -1), ('i8', 3, -3, -1), ('i64', 10, -6, -2)] if not t else
+                                     [('i8', 10, -2, -1), ('u8', 10, -2, 0), ('i16', 10, -3, -1), ('i32', 10, -3, -1), ('i32', 10, -4, 1), ('i64', 10, -6, -2), ('i16', 16, -2, -1), ('i8', 3, -3, -1), ('i32', 3, -5, -2), ('i8', 4, -3, -1)]):
+            lines.append(line(T(rep, se, radix), T(rep, de, radix), tag, 'VIA_CONVERT'))
+            if tag != 'NEA':
+                lines.append(line(T(rep, de, radix), T(rep, se, radix), tag, 'VIA_CONVERT'))  # loss-free
+        for f in floats:
+            for (rep, radix, de) in ([('i32', 10, -1), ('i16', 10, -2)] if not t else [('i32', 10, -1), ('i16', 10, -2), ('i64', 10, -3), ('i32', 16, -1), ('i32', 3, -2)]):
+                lines.append(line(f, T(rep, de, radix), tag, 'VIA_CONVERT'))
+    # rounding_integer<int> as the DESTINATION of convert<Tag, ...>: its own rounding must not be applied on top
+    # (same tag only: convert<neg_inf, rounding_integer<int, nearest>> asks for two different modes at once)
+    for f in floats:
+        lines.append(line(f, 'RNI', 'NEA', 'VIA_CONVERT'))
+        lines.append(line(f, 'SI<RNI, -2>', 'NEA', 'VIA_CONVERT'))
     # static_number destinations (the property names them): from floating point, from a finer PLAIN scaled_integer, and from a
     # finer static_number whose own rounding tag differs (the destination's mode must decide)
     RT = dict(NEA='nearest', TIE='tie_to_pos_inf', NEG='neg_inf')
@@ -98,7 +113,7 @@ def plan(tier):
              'enumerated completely, wider ones over the boundary lattice closed under k*2^s +- 2^(s-1) +- 1; floating sources: exponent window x 9 six-bit mantissas x both signs, '
              '(k + {0,.25,.499,.5,.501,.75}) destination units for boundary k incl. 2^23+-1, 2^24+2, 2^52+1, 2^53-1 and their nextafter neighbours; non-trivial = source is not a multiple of the destination unit' % len(lines),
         bound=dict(programs=len(lines), tags=['native', 'nearest', 'tie_to_pos_inf', 'neg_inf']),
-        assumptions=['native_rounding_tag is judged as truncation toward zero', 'radix 2 only'],
+        assumptions=['native_rounding_tag is judged as truncation toward zero', 'source and destination of a fixed-point conversion have the same radix (2, 3, 4, 10, 16)'],
         deadline_s=1500 if t else 240,
     )
 
